@@ -11,6 +11,22 @@ Definition vamana_props (sc : schema) : list (bytes * N * quant) :=
 Fixpoint first_nonzero (l : list N) : N :=
   match l with [] => 0 | x :: r => if x =? 0 then first_nonzero r else x end.
 
+(* what is persisted must also be usable: the requests of the step answered by a fresh instance (own cache) over a
+   copy of the file. A request the running instance answered with rows and the fresh one with an error means that
+   the file cannot be read back as the graph it describes (e.g. a stored node that reads as absent) *)
+Fixpoint find_cold (xs : list extra) : option (list (request * qout)) :=
+  match xs with
+  | [] => None
+  | XCold qs :: _ => Some qs
+  | _ :: r => find_cold r
+  end.
+Fixpoint cold_fails (w c : list (request * qout)) : bool :=
+  match w, c with
+  | (_, QRows _) :: w', (_, QError _) :: c' => true
+  | _ :: w', _ :: c' => cold_fails w' c'
+  | _, _ => false
+  end.
+
 Fixpoint judge_steps (sc : schema) (i : N) (steps : list step) : N :=
   match steps with
   | [] => 0
@@ -19,6 +35,12 @@ Fixpoint judge_steps (sc : schema) (i : N) (steps : list step) : N :=
       | OCrash _ => 0
       | _ =>
           let c := first_nonzero (map (fun pd => wf_code (fst (fst pd)) (snd (fst pd)) (snd pd) st) (vamana_props sc)) in
+          let c := if c =? 0 then
+                     match find_cold (s_extra st) with
+                     | Some cold => if cold_fails (s_queries st) cold then 149 else 0
+                     | None => 0
+                     end
+                   else c in
           if c =? 0 then judge_steps sc (i + 1) rest else c + 1000 * (i + 1)
       end
   end.
